@@ -176,7 +176,10 @@ pub(super) fn animate<T: Component>(
             if let (Some(timeline), Ok(mut target)) =
                 (animator.timeline.as_ref(), targets.get_mut(entity))
             {
-                timeline.update(&mut target, position_secs);
+                // The last evaluation is an evaluation of the end of the timeline, whatever the
+                // timeline's own arithmetic makes of a position that `duration()` says is past it.
+                let time = if just_ended { f32::MAX } else { position_secs };
+                timeline.update(&mut target, time);
             }
         }
         if animator.state != AnimationState::Ended {
